@@ -17,7 +17,7 @@ from sfv.framework import Ctx, Property
 from sfv.rt import stepdrive as sd
 from sfv.rt.loop_safe import run_controlled
 from sfv.rt.sfctx import make_context
-from sfv.translate import gatherguards, tagguards
+from sfv.translate import gatherguards, tagguards, stepguards
 
 BOUNDARY = [0, 1, 9, 10, 11, 12]
 STATUSES = ["COMPLETED", "SKIPPED", "FAILED", "CANCELLED", "RECOVERED"]
@@ -316,7 +316,7 @@ class C01(Property):
     lean_targets = ["SFV.Props.C01", "SFV.Model.Proto"]
     props_files = ["SFV/Props/C01.lean"]
     drivers = ["Drivers/C01.lean"]
-    translators = [tagguards.generate, gatherguards.generate]
+    translators = [tagguards.generate, stepguards.generate, gatherguards.generate]
     quick_budget_s = 300
     rule = ("REAL ScatterStep and GatherStep wired with real Ports in an in-memory context. Lists of length 0..40 (always 0,1,9,10,11,12), "
             "scalar/list/dict/ObjectToken elements, an element-wise tag-preserving map in between; 1..4 concurrent parent tags; nesting "
